@@ -22,5 +22,5 @@ ASSUMPTIONS = ["slices.SortFunc by contract", "Ntimed: floating-point products/q
                "Ntimed 'within learned delay bounds' clause: only the fewer-than-four-samples case is decided"]
 EXPLANATION = ""
 CLAIMED = True
-LEVEL_TEXT = "Bounded model checking of the real filter code: the lucky-packet filter is compared, for every history of M samples (all prefixes) with distinct delays, against a reference written by counting (k lowest delays of the last N, median by rank); reset/unconfigured behaviour likewise. For the Ntimed filter the reset/epoch clause and the fewer-than-four-samples clause are decided structurally from an arbitrary internal state with floating-point products kept as uninterpreted functions."
+LEVEL_TEXT = "Bounded model checking of the real filter code: the lucky-packet filter is compared, for every history of M samples (all prefixes) with distinct delays, against a reference written by counting (k lowest delays of the last N, median by rank); reset/unconfigured behaviour likewise. For the Ntimed filter the reset/epoch clause and the fewer-than-four-samples clause are decided structurally from an arbitrary internal state with floating-point products kept as uninterpreted functions, plus the third sample after a reset from a concrete noise-free history for every sample."
 LEVEL_NOTE = "sort by contract; (N,k,M) up to (3,5,4)/(2,2,4) quick and (4,4,6) thorough; Ntimed: FP mul/div/sqrt uninterpreted, conversion range unchecked, numeric closeness to the integer offset and the 'within learned bounds' clause beyond the first three samples are not decided."
